@@ -7,10 +7,18 @@ from .core import gN, gZ, gbool, glist, gbytes, gopt
 POOL = [("a", b"ab"), ("b", b"abc"), ("c", b"zz"), ("d", b"a"), ("e", b"\x00\x01"), ("f", b"xyz")]
 MEMS = [b"abcabcab a\x00\x01xx", b"", b"a", b"ab", b"zzzab\x00\x01\x00\x01abc", b"xyz", b"aaaaaaaa",
         b"ab zz xyz", b"\xff\xfe\x00\x01abcab"]
+# regex strings without any literal: boreal scans them on their own after the Aho-Corasick pass of a region
+# (no timeout check, no match-limit event); names start with an upper-case letter
+RAW_POOL = [("R", b"[a-z]+[0-9]+"), ("S", b"\\d+[a-z]?"), ("T", b"[0-9]+"), ("U", b"[^ ]+")]
+RAW_MEMS = [b"ab1 c22 abc9 zz", b"a1b2c3 xyz 9", b"x1z xy 007 ab", b"abcabc123123 zz9z"]
+
+
+def is_raw(name):
+    return name[1].isupper()
 
 
 def gen_ruleset(rng, max_rules=6, max_ns=3, depth=2, allow_for=True, cond_kinds=None, global_refs_ordinary=False,
-                poison=0):
+                poison=0, raw_regex=0):
     """Returns a JSON-serialisable rule set: {"rules": [...]} in declaration order."""
     nns = rng.range(1, max_ns)
     nrules = rng.range(1, max_rules)
@@ -35,7 +43,8 @@ def gen_ruleset(rng, max_rules=6, max_ns=3, depth=2, allow_for=True, cond_kinds=
         if name is None:
             continue
         nstr = rng.range(0, 3)
-        strs = [rng.choice(POOL) for _ in range(nstr)]
+        strs = [rng.choice(RAW_POOL) if (raw_regex and rng.below(100) < raw_regex) else rng.choice(POOL)
+                for _ in range(nstr)]
         # unique names inside a rule
         strings = []
         for k, (n, p) in enumerate(strs):
@@ -208,7 +217,8 @@ def rule_text(r, printer_cls=cond.Printer):
     mods = ("global " if r["global"] else "") + ("private " if r["private"] else "")
     txt = "%srule %s {\n" % (mods, r["name"])
     if r["strings"]:
-        txt += "  strings:\n" + "".join("    $%s = %s\n" % (n, cond.ybytes(bytes(p))) for n, p in r["strings"])
+        txt += "  strings:\n" + "".join("    $%s = %s\n" % (n, ("/%s/" % bytes(p).decode()) if is_raw(n) else cond.ybytes(bytes(p)))
+                                       for n, p in r["strings"])
     txt += "  condition:\n    %s\n}\n" % pr.y(tup(r["cond"]))
     return txt
 
@@ -250,14 +260,20 @@ def simulate_strings(rs, regions, limit=1000):
     match limit while that hit is handled.  Mirrors AcScan::new (atoms lower-cased and de-duplicated across
     variables, fan-out in registration order), the overlapping search order (end offset, then longer pattern
     first), literal confirmation, insertion and truncation."""
+    import re as _re
     variables = []          # (literal, string id)
+    raw = {}                # variable index -> compiled regex (strings without literal)
     for r in ordered_rules(rs):
-        for k, (_, p) in enumerate(r["strings"]):
-            assert len(p) <= 4
+        for k, (n, p) in enumerate(r["strings"]):
+            if is_raw(n):
+                raw[len(variables)] = _re.compile(bytes(p), _re.S)
+            else:
+                assert len(p) <= 4
             variables.append((bytes(p), r["id"] * 100 + k))
     atoms = {}              # lowered atom -> [variable index]
     for vi, (lit, _) in enumerate(variables):
-        atoms.setdefault(lit.lower(), []).append(vi)
+        if vi not in raw:
+            atoms.setdefault(lit.lower(), []).append(vi)
     matches = [[] for _ in variables]
     reached = set()
     hits = []
@@ -283,6 +299,15 @@ def simulate_strings(rs, regions, limit=1000):
                         reached.add(vi)
                         evs.append(sid)
             hits.append(evs)
+        # strings without literal: searched from every start in turn (scan_single_variable), up to the limit
+        for vi, rx in raw.items():
+            offset = 0
+            while offset < len(mem) and len(matches[vi]) < limit:
+                mt = rx.search(mem, offset)
+                if mt is None:
+                    break
+                offset = mt.start() + 1
+                matches[vi].append((base, mt.start(), mt.end() - mt.start()))
     return matches, hits
 
 
